@@ -479,12 +479,12 @@ def _jobs_for(prop, tier):
     if prop == 'C09':
         return jobs_c09(tier) + [j for j in jobs_option_below(tier) if j[1][3] in ('rpad', 'rpad_and_clip')] + jobs_simplify(tier) + jobs_fillna(tier) + jobs_bytemask(tier) + jobs_record_below(tier, ('rpad', 'rpad_and_clip')) + jobs_axis_through_record(tier, ('rpad', 'rpad_and_clip')) + [j for j in jobs_c02(tier) if j[1][0] in ('IndexedOptionArray64', 'ByteMaskedArray', 'BitMaskedArray', 'UnmaskedArray')]
     if prop == 'C11':
-        return jobs_simplify(tier) + jobs_validity_params(tier) + jobs_list_validity(tier) + jobs_window_validity(tier) + jobs_missing_jagged(tier)
+        return jobs_simplify(tier) + jobs_validity_params(tier) + jobs_list_validity(tier) + jobs_window_validity(tier) + jobs_indexed_is_unique(tier) + jobs_missing_jagged(tier)
     if prop == 'C07':
         return [j for j in jobs_option_below(tier) if j[1][3] == 'combinations'] + jobs_combinations(tier) + jobs_axis0(tier, 'combinations') + jobs_record_below(tier, ('combinations',))
     if prop == 'C03':
         return jobs_c03(tier) + jobs_option_reduce(tier) + jobs_axis(tier, ('reduce',)) + jobs_reduce_nonlocal(tier) + jobs_unmasked_passthrough(('reduce_next',)) + jobs_record_reduce(tier)
-    return {'C02': (lambda t: jobs_c02(t) + jobs_numpy_toregular(t) + jobs_regular_getitem_jagged(t) + jobs_list_asslice(t) + jobs_indexed_widths(t)), 'C03': jobs_c03, 'C04': (lambda t: jobs_c04(t) + jobs_numpy_toregular(t)), 'C06': (lambda t: jobs_c06(t) + jobs_axis(t, ('sort', 'argsort')) + jobs_numpy_sort(t) + jobs_sort_nonlocal(t) + jobs_option_sort(t) + jobs_option_sort_above(t) + jobs_option_argsort(t) + jobs_string_argsort(t) + jobs_unmasked_passthrough(('sort_next', 'argsort_next'))), 'C08': (lambda t: jobs_c08(t) + jobs_numpy(t) + jobs_numpy_types(t) + jobs_union(t) + jobs_reverse_merge(t) + jobs_record_merge(t) + jobs_list_merge(t) + [j for j in jobs_record_named(t) if j[0] is h_record_mergemany_named] + jobs_merge_union(t) + jobs_union_ops(t)), 'C17': (lambda t: jobs_c17(t) + jobs_record_keys(t) + jobs_record_key_at(t) + jobs_node_form(t) + jobs_numpy_form(t) + jobs_record_form(t) + jobs_node_type(t) + jobs_union_form(t)), 'C12': (lambda t: jobs_numpy(t) + jobs_numpy_astype(t) + [(h_index_alloc, (), 900)] + [(h_axis0, (L_, 'combinations', n_, True), 900) for L_, n_ in ((1, 2), (2, 3), (1, 3), (0, 2))] + [j for j in jobs_numpy_getitem(t) if j[1][3] == 'array']), 'C10': (lambda t: jobs_c10(t) + [j for j in jobs_record_named(t) if j[0] is h_record_field_key] + jobs_project(t) + [j for j in jobs_option_below(t) if j[1][3] in ('getitem_field', 'getitem_fields')] + jobs_record_setitem(t) + jobs_record_key_at(t)), 'C05': jobs_c05, 'C09': jobs_c09}.get(prop, lambda t: [])(tier)
+    return {'C02': (lambda t: jobs_c02(t) + jobs_numpy_toregular(t) + jobs_regular_getitem_jagged(t) + jobs_list_asslice(t) + jobs_indexed_widths(t) + jobs_indexed_is_unique(t)), 'C03': jobs_c03, 'C04': (lambda t: jobs_c04(t) + jobs_numpy_toregular(t)), 'C06': (lambda t: jobs_c06(t) + jobs_axis(t, ('sort', 'argsort')) + jobs_numpy_sort(t) + jobs_sort_nonlocal(t) + jobs_option_sort(t) + jobs_option_sort_above(t) + jobs_option_argsort(t) + jobs_string_argsort(t) + jobs_unmasked_passthrough(('sort_next', 'argsort_next'))), 'C08': (lambda t: jobs_c08(t) + jobs_numpy(t) + jobs_numpy_types(t) + jobs_union(t) + jobs_reverse_merge(t) + jobs_record_merge(t) + jobs_list_merge(t) + [j for j in jobs_record_named(t) if j[0] is h_record_mergemany_named] + jobs_merge_union(t) + jobs_union_ops(t)), 'C17': (lambda t: jobs_c17(t) + jobs_record_keys(t) + jobs_record_key_at(t) + jobs_node_form(t) + jobs_numpy_form(t) + jobs_record_form(t) + jobs_node_type(t) + jobs_union_form(t)), 'C12': (lambda t: jobs_numpy(t) + jobs_numpy_astype(t) + [(h_index_alloc, (), 900)] + [(h_axis0, (L_, 'combinations', n_, True), 900) for L_, n_ in ((1, 2), (2, 3), (1, 3), (0, 2))] + [j for j in jobs_numpy_getitem(t) if j[1][3] == 'array']), 'C10': (lambda t: jobs_c10(t) + [j for j in jobs_record_named(t) if j[0] is h_record_field_key] + jobs_project(t) + [j for j in jobs_option_below(t) if j[1][3] in ('getitem_field', 'getitem_fields')] + jobs_record_setitem(t) + jobs_record_key_at(t)), 'C05': jobs_c05, 'C09': jobs_c09}.get(prop, lambda t: [])(tier)
 
 
 # ------------------------------------------------------------------------------------------------ C01: getitem_next of list nodes
@@ -7487,6 +7487,76 @@ def jobs_window_validity(tier):
     if tier != 'quick':
         q += [(c, n_, v_) for c in ('ListArray64', 'IndexedArray64', 'IndexedOptionArray64') for n_, v_ in ((0, 0), (1, 0), (3, 2))]
     return [(h_window_validity, a, 1800) for a in q]
+
+
+@guard
+def h_indexed_is_unique(pattern, view, option=True):
+    """IndexedArray64 / IndexedOptionArray64::is_unique with the index a window (starting `view` entries in) of a longer buffer: the content is
+    asked whether the entries the *window* selects - every non-missing one, in order - are unique, and its answer is the answer (the first
+    entries of a sliced array count like the others)"""
+    pattern = tuple(bool(x) for x in pattern)
+    n = len(pattern)
+    nc = NodeCtx(['IA', 'IDX', 'CNT', 'UTL', 'KD', 'IDS'], [], unwind=max(14, 3 * (n + view) + 12))
+    fo, sz, al, fields = nc.layout_of('IA', '_ZNK7awkward14IndexedArrayOfIlLb%dEE6lengthEv' % (1 if option else 0))
+    total = n + view
+    data = nc.m.array('iu_index', ('i', 64), max(1, total), const=True)
+    a0 = z3.Array('iu_index', z3.BitVecSort(64), z3.BitVecSort(64))
+    buf = [z3.Select(a0, BV(i)) for i in range(total)]
+    idx = buf[view:]
+    for v in buf[:view]:
+        nc.m.assume(v >= 0, v < nc.lencontent)
+    for i, miss in enumerate(pattern):
+        nc.m.assume(idx[i] < 0 if miss else z3.And(idx[i] >= 0, idx[i] < nc.lencontent))
+    cells = nc.content_header('node', nc.vptr_of('N7awkward14IndexedArrayOfIlLb%dEEE' % (1 if option else 0), 'IA'))
+    nc.index_cells(cells, fo[1], data, BV(view), BV(n))
+    cells.update({fo[2]: (nc.content0, 8), fo[2] + 8: (NULL, 8)})
+    this = nc.m.record('node', cells, const=True)
+    seen = []
+    U = nc.m.bv('content_says_unique', 1)
+
+    def s_is_unique(eng, fr, ins, st, name, argv):
+        nm, info = nc.content_info(argv[0], st, eng)
+        seen.append(dict(pc=st.pc, info=info))
+        return U
+    nc.m.eng.stubs['vf$slot%d' % nc.slot('9is_uniqueEv')] = s_is_unique
+    out = nc.m.call('_ZNK7awkward14IndexedArrayOfIlLb%dEE9is_uniqueEv' % (1 if option else 0), [this])
+    valid = [i for i, m_ in enumerate(pattern) if not m_]
+    obls = [('is_unique does not raise', out.raised), ('the content is asked', z3.Not(z3.Or([ob['pc'] for ob in seen] + [z3.BoolVal(False)])))]
+    for ob in seen:
+        g, info = ob['pc'], ob['info']
+        obls.append(('the content is asked about exactly the %d non-missing entries of the window' % len(valid), z3.And(g, info['length'] != len(valid))))
+        for k, i in enumerate(valid):
+            obls.append(('entry %d asked about is window entry %d' % (k, i), z3.And(g, z3.Select(info['atoms'], BV(k)) != idx[i])))
+    if out.ret is not None:
+        r1 = out.ret if out.ret.size() == 1 else z3.Extract(0, 0, out.ret)
+        obls.append(('the content\'s answer is the answer', z3.And(z3.Not(out.raised), r1 != U)))
+
+    def replay(model, ent):
+        bv = [model.eval(x, model_completion=True).as_signed_long() for x in buf]
+        lc = max([model.eval(nc.lencontent, model_completion=True).as_signed_long(), 1] + [v + 1 for v in bv])
+        if lc > 60:
+            return False, 'content too long to replay', {}
+        vals = list(range(lc))
+        prog = 'i64 %s %s %s rangeof %d %d isunique' % (fullnative.ints(vals), 'option64' if option else 'indexed64', fullnative.ints(bv), view, total)
+        shown = [vals[v] for v in bv[view:] if v >= 0]
+        want = len(set(shown)) == len(shown)
+        kind_, got = fullnative.akrun(prog)
+        payload = dict(program=prog, native=[kind_, got], window=bv[view:], expected=want)
+        if kind_ != 'OK' or bool(got) != want:
+            return True, '%s with index window %s (starting %d entries into %s) over distinct numbers: is_unique gives %s %s, the entries shown are %s' % (
+                'IndexedOptionArray64' if option else 'IndexedArray64', bv[view:], view, bv, kind_, got, 'all different' if want else 'not all different'), payload
+        return False, 'native library agrees (%s)' % got, payload
+    # steer the counterexample towards a duplicate inside the window
+    pref = [nc.lencontent <= 8] + ([idx[valid[0]] == idx[valid[1]]] if len(valid) > 1 else [])
+    return mdischarge(nc.m, '%s::is_unique pattern=%s index window starting at %d' % ('IndexedOptionArray64' if option else 'IndexedArray64', ''.join('N' if p_ else 'v' for p_ in pattern), view), obls, [], replay=replay, prefer=pref,
+                      extra=dict(bounds='%d entries (missing pattern concrete: case split), index window %d entries into its buffer, index values symbolic; the content answers an arbitrary boolean' % (n, view)))
+
+
+def jobs_indexed_is_unique(tier):
+    q = [((0, 0), 0, False), ((0, 0), 1, False), ((0, 1, 0), 2, True)]
+    if tier != 'quick':
+        q += [((0, 0, 0), 3, False), ((1, 0, 0), 1, True), ((0,), 0, True), ((0, 0), 2, True)]
+    return [(h_indexed_is_unique, a, 1800) for a in q]
 
 
 def jobs_validity_params(tier):
